@@ -6,7 +6,7 @@
                  position, user stack (contents and everything any pending snapshot would
                  restore — the delta encodings themselves may differ: POP_ALL pops one by one
                  in the interpreter and calls `clear()` in generated code), atomic depth,
-                 position history, tag stack, negative-predicate depth, suppress flag and the
+                 position history, tag stack and tag history, negative-predicate depth, suppress flag and the
                  furthest failure *position*.  Not related: the rule stack and the keys of the
                  failure record (generated code inlines built-in rules instead of pushing a
                  frame for them, so the key under which a label is recorded differs).
@@ -16,6 +16,7 @@
 -/
 import PestModel.Gen
 import PestModel.Lemmas.Refine
+import PestModel.Lemmas.TagHist
 
 namespace Pest
 open DStack
@@ -27,7 +28,7 @@ structure SRel (cg c1 : PState) : Prop where
   uinv : Inv cg.ustack
   ad : cg.adepth = c1.adepth
   ph : cg.posHist = c1.posHist
-  tg : cg.tagStack = c1.tagStack
+  tg : cg.tagStack = c1.tagStack ∧ cg.tagHist = c1.tagHist
   nd : cg.negDepth = c1.negDepth
   sp : cg.suppress = c1.suppress
   fp : cg.fpos = c1.fpos
@@ -76,12 +77,13 @@ theorem srel_checkpoint {cg c1 : PState} (s : SRel cg c1) : SRel cg.checkpoint c
   ⟨by simp [PState.checkpoint, s.pos], by simp [PState.checkpoint, snapshot_items, s.ui],
    by simp [PState.checkpoint, snapsOf_snapshot, s.ui, s.usn], inv_snapshot _ s.uinv,
    by simp [PState.checkpoint, s.ad], by simp [PState.checkpoint, s.pos, s.ph],
-   s.tg, s.nd, s.sp, s.fp⟩
+   ⟨s.tg.1, by simp [s.tg.1, s.tg.2]⟩, s.nd, s.sp, s.fp⟩
 
 theorem srel_ok {cg c1 : PState} (s : SRel cg c1) (i1 : Inv c1.ustack) : SRel cg.ok c1.ok :=
   ⟨s.pos, by simp [PState.ok, dropSnap_items, s.ui],
    by simp only [PState.ok]; rw [snapsOf_dropSnap _ s.uinv, snapsOf_dropSnap _ i1, s.usn],
-   inv_dropSnap _ s.uinv, by simp [PState.ok, s.ad], by simp [PState.ok, s.ph], s.tg, s.nd, s.sp, s.fp⟩
+   inv_dropSnap _ s.uinv, by simp [PState.ok, s.ad], by simp [PState.ok, s.ph],
+   ⟨s.tg.1, by simp [s.tg.2]⟩, s.nd, s.sp, s.fp⟩
 
 theorem abs_eq {α} {d d' : DStack α} (h1 : d.items = d'.items) (h2 : snapsOf d = snapsOf d') :
     DStack.abs d = DStack.abs d' := by simp [DStack.abs, h1, h2]
@@ -92,7 +94,7 @@ theorem srel_restore {cg c1 : PState} (s : SRel cg c1) : SRel cg.restore c1.rest
   simp only [DStack.abs, RStack.mk.injEq] at ha
   exact ⟨by simp [PState.restore, s.pos, s.ph], by simp [PState.restore, ha.1],
     by simp [PState.restore, ha.2], inv_restore _ s.uinv, by simp [PState.restore, s.ad],
-    by simp [PState.restore, s.ph], s.tg, s.nd, s.sp, s.fp⟩
+    by simp [PState.restore, s.ph], ⟨by simp [s.tg.1, s.tg.2], by simp [s.tg.2]⟩, s.nd, s.sp, s.fp⟩
 
 /-! ### `fail()` -/
 
@@ -111,7 +113,8 @@ theorem srel_fail {cg c1 cg' c1' : PState} {rn rn' : Option String} {force : Boo
   obtain ⟨g0, g1, g2, g3, g4, g5, g6, g7⟩ := fail_same hg
   obtain ⟨l0, l1, l2, l3, l4, l5, l6, l7⟩ := fail_same h1
   refine ⟨⟨by rw [g0, l0, s.pos], by rw [g2, l2, s.ui], by rw [g2, l2, s.usn], by rw [g2]; exact s.uinv,
-    by rw [g4, l4, s.ad], by rw [g1, l1, s.ph], by rw [g6, l6, s.tg], by rw [g5, l5, s.nd],
+    by rw [g4, l4, s.ad], by rw [g1, l1, s.ph],
+    ⟨by rw [g6, l6, s.tg.1], by rw [fail_tagHist hg, fail_tagHist h1, s.tg.2]⟩, by rw [g5, l5, s.nd],
     by rw [g7, l7, s.sp], ?_⟩, g3⟩
   unfold PState.fail at hg h1
   rw [s.nd, s.sp] at hg
@@ -271,19 +274,19 @@ theorem rule_gen {rG : SemG} {r1 : Sem1} {r0 : Sem0} (hG : GoodG rG r1) (h1 : Go
       · simp only [hS, ↓reduceIte]
         exact ⟨_, chg, rfl, s4, fr4, fun _ => rfl⟩
       · simp only [hS, Bool.false_eq_true, ↓reduceIte]
-        have htg : cg3.tagStack = c13.tagStack := s3.tg
+        have htg : cg3.tagStack = c13.tagStack := s3.tg.1
         rw [htg]
         cases c13.tagStack with
         | nil =>
           simp only []
           refine ⟨_, _, rfl, ?_, ?_, fun _ => ?_⟩
-          · exact ⟨s3.pos, s3.ui, s3.usn, s3.uinv, s3.ad, s3.ph, rfl, s3.nd, s3.sp, s3.fp⟩
+          · exact ⟨s3.pos, s3.ui, s3.usn, s3.uinv, s3.ad, s3.ph, ⟨rfl, s3.tg.2⟩, s3.nd, s3.sp, s3.fp⟩
           · exact ⟨hgi, hgs, hginv⟩
           · simp [s.pos, s3.pos]
         | cons t ts =>
           simp only []
           refine ⟨_, _, rfl, ?_, ?_, fun _ => ?_⟩
-          · exact ⟨s3.pos, s3.ui, s3.usn, s3.uinv, s3.ad, s3.ph, rfl, s3.nd, s3.sp, s3.fp⟩
+          · exact ⟨s3.pos, s3.ui, s3.usn, s3.uinv, s3.ad, s3.ph, ⟨rfl, s3.tg.2⟩, s3.nd, s3.sp, s3.fp⟩
           · exact ⟨hgi, hgs, hginv⟩
           · simp [s.pos, s3.pos]
 
@@ -693,7 +696,15 @@ theorem repLoop_gen {rG : SemG} {r1 : Sem1} {r0 : Sem0} (hG : GoodG rG r1) (h1 :
 /-! ### POP_ALL: `clear()` in generated code, pop by pop under a checkpoint in the interpreter -/
 
 structure Other (x y : PState) : Prop where
-  tg : y.tagStack = x.tagStack
+  tg : y.tagStack = x.tagStack ∧ y.tagHist = x.tagHist
+  nd : y.negDepth = x.negDepth
+  sp : y.suppress = x.suppress
+  fp : y.fpos = x.fpos
+
+/-- `y` runs under a checkpoint taken at `x`: the saved copy of `x`'s tags is on top of the
+    tag history, and nothing else that `Other` tracks has moved -/
+structure OtherC (x y : PState) : Prop where
+  tg : y.tagStack = x.tagStack ∧ y.tagHist = x.tagStack :: x.tagHist
   nd : y.negDepth = x.negDepth
   sp : y.suppress = x.suppress
   fp : y.fpos = x.fpos
@@ -702,7 +713,7 @@ theorem snapInt_ext {a b : SnapInt} (h1 : a.val = b.val) (h2 : a.snaps = b.snaps
   cases a; cases b; simp_all
 
 theorem popAllLoop_full (c : PState) (p : Pre c) :
-    ∀ (k : Nat) (d : PState) (pos : Nat), Frame c.checkpoint d → Other c d → d.ustack.items.length < k →
+    ∀ (k : Nat) (d : PState) (pos : Nat), Frame c.checkpoint d → OtherC c d → d.ustack.items.length < k →
       match L1.popAllLoop inp k d pos with
       | .done true c' ps =>
         L1.matchAll inp d.ustack.items pos = some c'.pos ∧ c'.ustack.items = [] ∧ ps = [] ∧
@@ -725,7 +736,7 @@ theorem popAllLoop_full (c : PState) (p : Pre c) :
       have hu : ({ d.ok with pos := pos } : PState).ustack.items = [] := by
         simp [PState.ok, dropSnap_items, hi]
       simp only [hi, L1.matchAll]
-      exact ⟨trivial, hu, trivial, f2, ⟨o.tg, o.nd, o.sp, o.fp⟩⟩
+      exact ⟨trivial, hu, trivial, f2, ⟨⟨o.tg.1, by simp [o.tg.2]⟩, o.nd, o.sp, o.fp⟩⟩
     | some q =>
       obtain ⟨lit, us⟩ := q
       simp only []
@@ -733,7 +744,7 @@ theorem popAllLoop_full (c : PState) (p : Pre c) :
       have hitems : d.ustack.items = lit :: us.items := pop_some_items hp
       have f1 : Frame c.checkpoint { d with ustack := us } :=
         ⟨f.ph, by simp [s1, f.us], f.rs, f.as, f.av, f.ri, inv_pop _ f.iu lit us hp, f.ir⟩
-      have o1 : Other c { d with ustack := us } := ⟨o.tg, o.nd, o.sp, o.fp⟩
+      have o1 : OtherC c { d with ustack := us } := ⟨o.tg, o.nd, o.sp, o.fp⟩
       by_cases hm : startsWithAt inp lit pos = true
       · simp only [hm, ↓reduceIte]
         have hl' : ({ d with ustack := us } : PState).ustack.items.length < k := by
@@ -747,7 +758,7 @@ theorem popAllLoop_full (c : PState) (p : Pre c) :
         have hft : L1.failT ({ d with ustack := us } : PState).restore = .done false c3 [] := by
           simp [L1.failT, h3]
         simp only [hft, hitems, L1.matchAll, hm, Bool.false_eq_true, ↓reduceIte]
-        exact ⟨trivial, _, hft, f', a', ⟨o1.tg, o1.nd, o1.sp, o1.fp⟩⟩
+        exact ⟨trivial, _, hft, f', a', ⟨⟨by simp [o.tg.2], by simp [o.tg.2]⟩, o1.nd, o1.sp, o1.fp⟩⟩
 
 /-! ### one node -/
 
@@ -901,7 +912,7 @@ theorem step_gen {rG : SemG} {r1 : Sem1} {r0 : Sem0} (hs : SkipTotal g) (k : Nat
     have he := hG.rel e _ _ [] sc pgc p1c
     revert he
     cases rG e { cg.checkpoint with negDepth := cg.checkpoint.negDepth + 1 } [] with
-    | oof => intro he; simp only [GenRel] at he; simp [he, GenRel]
+    | oof => intro he; simp only [GenRel] at he; simp only [he, GenRel]
     | exc kx => intro he; exact he
     | done m cg1 tmp =>
       intro he
@@ -1018,7 +1029,7 @@ theorem step_gen {rG : SemG} {r1 : Sem1} {r0 : Sem0} (hs : SkipTotal g) (k : Nat
   | popAll =>
     simp only [LG.step, L1.step, LG.matchAllG]
     have hx := popAllLoop_full inp c1 p1 (c1.ustack.items.length + 1) c1.checkpoint c1.pos
-      (Frame.refl (pre_checkpoint p1)) ⟨rfl, rfl, rfl, rfl⟩ (by simp [PState.checkpoint, snapshot_items])
+      (Frame.refl (pre_checkpoint p1)) ⟨⟨rfl, rfl⟩, rfl, rfl, rfl⟩ (by simp [PState.checkpoint, snapshot_items])
     have hci : c1.checkpoint.ustack.items = c1.ustack.items := rfl
     rw [hci] at hx
     rw [hpos, s.ui]
@@ -1043,7 +1054,8 @@ theorem step_gen {rG : SemG} {r1 : Sem1} {r0 : Sem0} (hs : SkipTotal g) (k : Nat
         have scr : SRel cg cr := by
           simp only [abs0, S0.mk.injEq] at a
           exact ⟨by rw [s.pos, a.1], by rw [s.ui, a.2.1], by rw [s.usn, f.us], s.uinv,
-            by rw [s.ad]; exact (snapInt_ext f.av f.as).symm, by rw [s.ph, f.ph], by rw [s.tg, o.tg],
+            by rw [s.ad]; exact (snapInt_ext f.av f.as).symm, by rw [s.ph, f.ph],
+            ⟨by rw [s.tg.1, o.tg.1], by rw [s.tg.2, o.tg.2]⟩,
             by rw [s.nd, o.nd], by rw [s.sp, o.sp], by rw [s.fp, o.fp]⟩
         have := failT_gen ps0 scr pg (f.pre p1)
         rw [hft] at this
